@@ -53,6 +53,7 @@ class Ctx:
         self.bvars = []  # names of boolean variables
         self.bvar_set = set()
         self.uf_sigs = {}  # fname -> arity
+        self.sqrt_ids = set()  # ids of sqrt atoms (s*s is rewritten to its radicand when polynomials are multiplied)
 
     def atom(self, kind, key, payload):
         k = (kind, key)
@@ -61,6 +62,8 @@ class Ctx:
             i = len(self.atoms)
             self.atoms.append((kind, payload))
             self.key2id[k] = i
+            if kind == "sqrt":
+                self.sqrt_ids.add(i)
         return i
 
     def var(self, name):
@@ -173,7 +176,7 @@ class Poly:
             (m1, c1), = a.t.items()
             if not m1:
                 return Poly({m: _norm(v * c1) for m, v in b.t.items()}) if c1 != 1 else b
-            return Poly({tuple(sorted(m1 + m2)): _norm(c1 * c2) for m2, c2 in b.t.items()})
+            return _unsquare(Poly({tuple(sorted(m1 + m2)): _norm(c1 * c2) for m2, c2 in b.t.items()}))
         t = {}
         for m1, c1 in a.t.items():
             for m2, c2 in b.t.items():
@@ -184,7 +187,7 @@ class Poly:
                     t[m] = v
                 elif m in t:
                     del t[m]
-        return Poly(t)
+        return _unsquare(Poly(t))
 
     __rmul__ = __mul__
 
@@ -240,6 +243,34 @@ def atom_name(i):
 
 
 # --------------------------------------------------------------------------- defined atoms
+def _unsquare(p):
+    """sqrt(q) * sqrt(q) -> q (real semantics; q >= 0 is what sqrt's own defining axiom assumes): a front-end rewrite, so that
+    `norm ** 2` and `sum of squares` are the same polynomial however the code spells them."""
+    sq = CTX.sqrt_ids
+    if not sq:
+        return p
+    hit = False
+    for m in p.t:
+        if len(m) >= 2:
+            for j in range(len(m) - 1):
+                if m[j] == m[j + 1] and m[j] in sq:
+                    hit = True
+                    break
+        if hit:
+            break
+    if not hit:
+        return p
+    out = Poly({})
+    for m, c in p.t.items():
+        j = next((j for j in range(len(m) - 1) if m[j] == m[j + 1] and m[j] in sq), None)
+        if j is None:
+            out = out + Poly({m: c})
+        else:
+            rest = m[:j] + m[j + 2:]
+            out = out + Poly({rest: c}) * CTX.atoms[m[j]][1]   # recursion through __mul__ handles further squares
+    return out
+
+
 def sqrt(p):
     p = as_poly(p)
     if p.is_const():
